@@ -1671,19 +1671,23 @@ impl FixtureDatabase {
 
             // Check each dependency
             for dep_name in &fixture_def.dependencies {
-                // Find the dependency's definition (use resolution logic to get correct one)
-                if let Some(dep_definitions) = self.definitions.get(dep_name) {
-                    // Find best matching definition for the dependency
-                    // Use the first one (most local) - matches cycle detection behavior
-                    if let Some(dep_def) = dep_definitions.first() {
-                        // Check if scope mismatch: fixture has broader scope than dependency
-                        // FixtureScope is ordered: Function < Class < Module < Package < Session
-                        if fixture_def.scope > dep_def.scope {
-                            mismatches.push(ScopeMismatch {
-                                fixture: fixture_def.clone(),
-                                dependency: dep_def.clone(),
-                            });
-                        }
+                // The dependency is the definition pytest would inject into this fixture: the
+                // one resolution selects from the fixture's file (for a fixture that requests
+                // its own name, the definition it overrides) - not whichever definition of
+                // that name happened to be registered first, visible from here or not.
+                let dep_def = if dep_name == &fixture_def.name {
+                    self.find_closest_definition_excluding(file_path, dep_name, Some(fixture_def))
+                } else {
+                    self.find_closest_definition(file_path, dep_name)
+                };
+                if let Some(dep_def) = dep_def {
+                    // Check if scope mismatch: fixture has broader scope than dependency
+                    // FixtureScope is ordered: Function < Class < Module < Package < Session
+                    if fixture_def.scope > dep_def.scope {
+                        mismatches.push(ScopeMismatch {
+                            fixture: fixture_def.clone(),
+                            dependency: dep_def,
+                        });
                     }
                 }
             }
